@@ -186,6 +186,33 @@ def fam_switch():
             out.append({"id": "c08-jump-through-finally-%s-%s" % (nm, where), "prog": prog})
             prog = [Let("n", I(0)), Loop([Let("n", Bin("+", Id("n"), I(1))), If(Bin(">", Id("n"), I(3)), [BRK]), Try(body, "e", catch, f=[P(5)]), P(6)]), P(7), Ret(I(0))]
             out.append({"id": "c08-jump-through-finally-loop-%s-%s" % (nm, where), "prog": prog})
+    # nil is equal only to nil: a nil case never matches another subject, another case never a nil subject, wherever the clause stands
+    for sv, sn in ((I(0), "zero"), (I(1), "one"), (S(""), "empty"), (B(False), "false"), (L(), "list"), (NIL, "nil")):
+        for order in ("nil-first", "nil-last", "nil-mid"):
+            own = ([sv], [P(22)])
+            nilc = ([NIL], [P(21)])
+            other = ([I(7)], [P(23)])
+            cases = {"nil-first": [nilc, own, other], "nil-last": [other, own, nilc], "nil-mid": [other, nilc, own]}[order]
+            out.append({"id": "c08-switch-nilcase-%s-%s" % (sn, order), "prog": [Let("x", sv), Switch(Id("x"), cases, d=[P(29)]), Switch(sv, [c for c in cases if c is not own], d=[P(28)]), P(30), Ret(I(0))]})
+    # C-style loops of every shape (each of init / condition / post present or not, the condition a literal or a comparison) with break and continue:
+    # continue goes on with the post expression (when there is one) and the next test of the condition
+    for init in (None, "init"):
+        for cond in (None, "lit", "cmp"):
+            for post in (None, "inc"):
+                for jump in ("none", "cnt", "cnt-first"):
+                    body = [Let("n", Bin("+", Id("n"), I(1))), If(Bin(">", Id("n"), I(4)), [BRK]), P(Id("n"))]
+                    if jump == "cnt":
+                        body += [If(Bin("==", Id("n"), I(2)), [CNT]), P(50)]
+                    if jump == "cnt-first":
+                        body = [Let("lit", I(5)), Let("n", Bin("+", Id("n"), I(1))), If(Bin(">", Id("n"), I(4)), [BRK]), If(Bin("<", Id("n"), I(3)), [CNT]), P(Id("n"))]
+                    c = None if cond is None else (B(True) if cond == "lit" else Bin("<", Id("n"), I(9)))
+                    loop = CFor(Let("i", I(0)) if init else None, c, Inc("i") if post else None, body)
+                    out.append({"id": "c08-cfor-shape-%s-%s-%s-%s" % (init, cond, post, jump), "prog": [Let("n", I(0)), Let("i", I(0)), loop, P(Id("i")), P(60), Ret(I(0))]})
+                    # ... inside an enclosing loop, whose remaining body and iterations must still run, and inside a function
+                    out.append({"id": "c08-cfor-shape-nested-%s-%s-%s-%s" % (init, cond, post, jump),
+                                "prog": [Let("i", I(0)), ForIn("o", L(I(1), I(2)), [Let("n", I(0)), loop, P(Id("o"))]), P(60), Ret(I(0))]})
+                    out.append({"id": "c08-cfor-shape-func-%s-%s-%s-%s" % (init, cond, post, jump),
+                                "prog": [Let("i", I(0)), FnStmt("f", [], [Let("n", I(0)), loop, Ret(Id("n"))]), P(Call("f")), P(60), Ret(I(0))]})
     # break inside switch inside loop acts on the loop
     for leaf, nm in ((BRK, "brk"), (CNT, "cnt")):
         prog = [ForIn("i", L(I(1), I(2), I(3)), [P(Id("i")), Switch(Id("i"), [([I(2)], [P(40), leaf, P(41)])], d=[P(42)]), P(43)]), P(44), Ret(I(0))]
